@@ -1071,9 +1071,13 @@ impl<'a> CompactionIterator<'a> {
 			&& self.accumulated_versions[0].0.is_hard_delete_marker()
 			&& !older_version_needed_by_snapshot;
 
-		// Check if any version is REPLACE
-		// REPLACE semantics: delete all older versions regardless of retention
-		let has_set_with_delete = self.accumulated_versions.iter().any(|(key, _)| key.is_replace());
+		// A REPLACE or a hard DELETE is a barrier: it erases every OLDER version of the
+		// key regardless of retention. Versions newer than the barrier are ordinary
+		// versions. `barrier_index` is the position (newest first) of the newest barrier.
+		let barrier_index = self
+			.accumulated_versions
+			.iter()
+			.position(|(key, _)| key.is_replace() || key.is_hard_delete_marker());
 
 		// Track the visibility of the previous (newer) version we processed.
 		// Used to detect when a newer version supersedes an older one.
@@ -1087,6 +1091,13 @@ impl<'a> CompactionIterator<'a> {
 			let is_replace = key.is_replace();
 			let is_latest = i == 0;
 			let seq_num = key.seq_num();
+			// Older than the newest barrier, and the barrier either stays in the output as a
+			// version of its own (REPLACE) or is a DELETE marker that this compaction is
+			// allowed to drop (bottom level). A DELETE marker that is kept keeps hiding the
+			// older versions at read time, so they need not be dropped with it.
+			let past_barrier = barrier_index.is_some_and(|b| {
+				i > b && (self.accumulated_versions[b].0.is_replace() || self.is_bottom_level)
+			});
 
 			// ===== SNAPSHOT-AWARE COMPACTION =====
 			//
@@ -1156,12 +1167,16 @@ impl<'a> CompactionIterator<'a> {
 			} else if is_latest && is_replace {
 				// Latest REPLACE: not stale (will be output)
 				false
+			} else if past_barrier {
+				// Older than a REPLACE / hard DELETE: erased by it
+				true
 			} else if is_hard_delete {
-				// Older DELETE: always stale (only latest tombstone matters)
-				true
-			} else if has_set_with_delete && !is_replace {
-				// REPLACE found: all older non-REPLACE versions are stale
-				true
+				// An older DELETE that is itself the newest barrier. Without versioning only
+				// the latest entry matters. With versioning the marker has to stay until the
+				// bottom level: older versions of the key may still sit in lower levels that
+				// are not part of this compaction, and dropping the marker would bring them
+				// back in history and time-travel reads.
+				!self.enable_versioning || self.is_bottom_level
 			} else {
 				// Older PUT: check versioning and retention
 				if !self.enable_versioning {
